@@ -13,4 +13,5 @@ Slice(x, f, n)  == [t |-> "slice", x |-> x, from |-> f, len |-> n]   \* bytes f 
 ClrTop(x)       == [t |-> "clr", x |-> x]                              \* first byte AND 0x7f
 ZeroHash        == Lit(Zeros(32))
 Str(s)          == [t |-> "str", s |-> s]                              \* ASCII bytes of a string constant
+RepLit(b, n)    == [t |-> "rep", b |-> b, n |-> n]                     \* n copies of byte b
 =============================================================================
